@@ -1,4 +1,5 @@
 import PhysisModel.Proofs.PbdParse
+import PhysisModel.Proofs.PbdLayout
 import PhysisModel.Proofs.Cmp
 import PhysisModel.Proofs.Layer
 import PhysisModel.Proofs.Tera
@@ -242,5 +243,69 @@ example : Spec.Pbd.encodeBlock [⟨[0x6e], [0x3F800000,0,0,0,0,0x3F800000,0,0,0,
 example : Pbd.query (Spec.Pbd.encode exampleMixed) 7 9 =
     .ok [⟨[0x6a, 0x5f, 0x6b], [1,2,3,4,5,6,7,8,9,10,11,12]⟩, ⟨[], [0,0,0,0,0,0,0,0,0,0,0,0x3F800000]⟩,
          ⟨[0x6e], [0x3F800000,0,0,0,0,0x3F800000,0,0,0,0,0x3F800000,0]⟩] := by decide +kernel
+
+/-! ### any layout the reader accepts (`Spec/PbdLayout.lean`)
+
+The format does not fix where an item's block lies: the item row records an absolute offset.  The two
+theorems above are instances of the following ones, which do not depend on the canonical layout. -/
+
+/-- **general position**: whenever the count, the item rows (with any block offsets and any 4 reserved
+bytes each) and the link table are followed by data in which every row's offset points at a well-formed
+encoded block of that item's bones — blocks in any order, overlapping-free or shared, with anything
+between and behind them — `from_existing` returns exactly the items of the rows and the links. -/
+theorem c16_pbd_parse_layout (rows : List Spec.Pbd.Row) (links : List Spec.Pbd.Link) (data : Bytes)
+    (h : Spec.Pbd.WFRows rows links data) :
+    Pbd.fromExisting (Spec.Pbd.assemble rows links data) =
+      .ok ⟨rows.map (fun r => Pbd.convItem r.1), links.map Pbd.convLink⟩ :=
+  Pbd.fromExisting_at rows links data h
+
+/-- the placed family (blocks stored in any order, filler in front of each, blocks shared by items with
+equal bones, unreferenced blocks, any reserved bytes, any trailer): the reader returns the records of `f` -/
+theorem c16_pbd_parse_placed (f : Spec.Pbd.File) (p : Spec.Pbd.Placement) (file : Bytes)
+    (henc : Spec.Pbd.encodePlaced f p = some file) (h : Spec.Pbd.WFPlaced f p) :
+    Pbd.fromExisting file = .ok (Pbd.toModel f) :=
+  Pbd.fromExisting_placed f p file henc h
+
+/-- `c16_pbd_chain` through any placed file -/
+theorem c16_pbd_chain_placed (f : Spec.Pbd.File) (p : Spec.Pbd.Placement) (file : Bytes) (a b : UInt16)
+    (hwf : Spec.Pbd.WFTree f) (henc : Spec.Pbd.encodePlaced f p = some file) (hlay : Spec.Pbd.WFPlaced f p)
+    (start : Spec.Pbd.Item) (hfind : Spec.Pbd.findItem f a = some start) (hab : a ≠ b)
+    (hs : Spec.Pbd.HasSibling f start) :
+    ∃ bones, Spec.Pbd.deformBones f start b = some bones ∧
+      Pbd.query file a b = .ok (bones.map Pbd.convBone) := by
+  obtain ⟨bones, hspec, hmodel⟩ := c16_pbd_chain_partial f a b hwf start hfind hab hs
+  refine ⟨bones, hspec, ?_⟩
+  simp only [Pbd.query, c16_pbd_parse_placed f p file henc hlay, hmodel]
+
+/-- `exampleMixed` with its blocks stored in the order 5, 9, 7 behind 3 / 0 / 1 filler bytes, a stray block
+nobody points at, non-zero reserved bytes and a trailer -/
+def examplePlacement : Spec.Pbd.Placement :=
+  ⟨[⟨[0xEE, 0xEE, 0xEE], [⟨[0x6e], [0x3F800000,0,0,0,0,0x3F800000,0,0,0,0,0x3F800000,0]⟩]⟩,
+    ⟨[], []⟩,
+    ⟨[0xEE], [⟨[0x7a], [9,9,9,9,9,9,9,9,9,9,9,9]⟩]⟩,
+    ⟨[], [⟨[0x6a, 0x5f, 0x6b], [1,2,3,4,5,6,7,8,9,10,11,12]⟩, ⟨[], [0,0,0,0,0,0,0,0,0,0,0,0x3F800000]⟩]⟩],
+   [[0,0,0x80,0x3F], [1,2,3,4], [0xFF,0xFF,0xFF,0xFF]], [0xAA, 0xBB]⟩
+example : Spec.Pbd.WFPlaced exampleMixed examplePlacement := by decide +kernel
+/-- the offsets recorded in the item rows: 9 → 125, 7 → 188 (behind the stray block), 5 → 67 -/
+example : (Spec.Pbd.rowsOf (Spec.Pbd.place 64 examplePlacement.stored).2 exampleMixed.items
+    examplePlacement.reserved).map (·.map (·.2.1)) = some [125, 188, 67] := by decide +kernel
+example : ∃ file, Spec.Pbd.encodePlaced exampleMixed examplePlacement = some file ∧
+    Pbd.query file 7 9 =
+    .ok [⟨[0x6a, 0x5f, 0x6b], [1,2,3,4,5,6,7,8,9,10,11,12]⟩, ⟨[], [0,0,0,0,0,0,0,0,0,0,0,0x3F800000]⟩,
+         ⟨[0x6e], [0x3F800000,0,0,0,0,0x3F800000,0,0,0,0,0x3F800000,0]⟩] := by
+  cases h : Spec.Pbd.encodePlaced exampleMixed examplePlacement with
+  | none => exact absurd h (by decide +kernel)
+  | some file =>
+    obtain ⟨bones, hb, hq⟩ := c16_pbd_chain_placed exampleMixed examplePlacement file 7 9 (by decide +kernel) h
+      (by decide +kernel) ⟨7, 2, [⟨[0x6a, 0x5f, 0x6b], [1,2,3,4,5,6,7,8,9,10,11,12]⟩, ⟨[], [0,0,0,0,0,0,0,0,0,0,0,0x3F800000]⟩]⟩
+      (by decide) (by decide) (by decide)
+    refine ⟨file, rfl, ?_⟩
+    rw [hq]
+    have : Spec.Pbd.deformBones exampleMixed ⟨7, 2, [⟨[0x6a, 0x5f, 0x6b], [1,2,3,4,5,6,7,8,9,10,11,12]⟩, ⟨[], [0,0,0,0,0,0,0,0,0,0,0,0x3F800000]⟩]⟩ 9 =
+        some [⟨[0x6a, 0x5f, 0x6b], [1,2,3,4,5,6,7,8,9,10,11,12]⟩, ⟨[], [0,0,0,0,0,0,0,0,0,0,0,0x3F800000]⟩,
+         ⟨[0x6e], [0x3F800000,0,0,0,0,0x3F800000,0,0,0,0,0x3F800000,0]⟩] := by decide +kernel
+    rw [this] at hb
+    injection hb with hb
+    rw [← hb]; rfl
 
 end Physis.C16
